@@ -114,7 +114,7 @@ theorem newW_delta (s : St) (total k locked : Nat) (u : Bool) :
     simp only [newW, List.mem_append, List.mem_singleton] at hr
     rcases hr with hr | rfl
     · exact hw r hr
-    · unfold WOk; cases u <;> simp <;> exact Nat.le_of_eq (Nat.mul_comm _ _)
+    · unfold WOk; cases u <;> simp
 
 /-- `newF`: a new record whose farm-token reserve arrives with it; the proxy-farming reserve
     `pa` must be provided by the caller -/
